@@ -466,3 +466,204 @@ func runE2(c *core.Ctx) {
 		c.Undecided("internal/encoder.(StreamEncoder).Encode", token.NoPos, "not found")
 	}
 }
+
+func init() {
+	register(&core.Rule{ID: "E3", Min: 1,
+		Doc: "Stream decoder progress: every go/cfg path through StreamDecoder.Decode that can return a nil error passes through Decoder.Decode (a value was consumed); a path that returns self.err without having decoded, recorded an error (setErr) or tested self.err != nil reports success without progress.",
+		Run: runE3})
+	register(&core.Rule{ID: "E4", Min: 2,
+		Doc: "Fresh read offset: wherever the stream decoder calls Reader.Read(buf[l:cap(buf)]) and then sets buf = buf[:l+n], the definition l := len(buf) that reaches the Read is not separated from it by a write to buf on any go/cfg path (loop back-edges included); realloc(&buf) preserves the length and is not a write. A stale l overwrites or truncates bytes already read, only for particular chunkings.",
+		Run: runE4})
+}
+
+func runE3(c *core.Ctx) {
+	p := c.Prog
+	api := p.Pkg("internal/decoder/api")
+	fd := core.FuncDecl(api, "StreamDecoder", "Decode")
+	cn := "internal/decoder/api.(StreamDecoder).Decode/progress"
+	if fd == nil {
+		c.Undecided(cn, token.NoPos, "not found")
+		return
+	}
+	c.Analysed("internal/decoder/api.(StreamDecoder).Decode")
+	g := funcCFG(p, fd.Body)
+	// forward walk from entry; state "safe" once a decode/setErr/err-test was passed
+	isSafe := func(n ast.Node) bool {
+		safe := false
+		ast.Inspect(n, func(m ast.Node) bool {
+			if call, ok := m.(*ast.CallExpr); ok {
+				if o := p.Callee(call); o != nil {
+					if o.Name() == "setErr" {
+						safe = true
+					}
+					if o.Name() == "Decode" {
+						if se, ok := call.Fun.(*ast.SelectorExpr); ok && exprStr(se.X) != "" && o.Pkg() != nil && core.IsSonic(o.Pkg()) {
+							safe = true
+						}
+					}
+				}
+			}
+			return !safe
+		})
+		return safe
+	}
+	var bad token.Pos
+	seen := map[*cfg.Block]bool{}
+	var walk func(b *cfg.Block)
+	walk = func(b *cfg.Block) {
+		if seen[b] || bad.IsValid() {
+			return
+		}
+		seen[b] = true
+		for _, n := range b.Nodes {
+			if isSafe(n) {
+				return
+			}
+			if r, ok := n.(*ast.ReturnStmt); ok {
+				bad = r.Pos()
+				return
+			}
+		}
+		succs := b.Succs
+		// `self.err != nil` true branch is safe (an error is returned)
+		if len(b.Nodes) > 0 && len(b.Succs) == 2 {
+			if e, ok := b.Nodes[len(b.Nodes)-1].(ast.Expr); ok {
+				if o, ok := isNilCmp(p, e, token.NEQ); ok && o != nil && o.Name() == "err" {
+					succs = b.Succs[1:]
+				}
+				if o, ok := isNilCmp(p, e, token.EQL); ok && o != nil && o.Name() == "err" {
+					succs = b.Succs[:1]
+				}
+			}
+		}
+		for _, s := range succs {
+			walk(s)
+		}
+	}
+	if len(g.Blocks) > 0 {
+		walk(g.Blocks[0])
+	}
+	if bad.IsValid() {
+		c.Bad(cn, bad, "Decode can return self.err == nil at %s without having consumed a value (e.g. when More() is false because the next byte is ']' or '}'): a caller looping on Decode never terminates", p.Pos(bad))
+	} else {
+		c.OK(cn, fd.Pos(), "every nil-able return is preceded by Decoder.Decode or setErr")
+	}
+}
+
+func runE4(c *core.Ctx) {
+	p := c.Prog
+	api := p.Pkg("internal/decoder/api")
+	n := 0
+	for _, fd := range core.FuncDecls(api) {
+		if fd.Body == nil || core.RecvName(fd) != "StreamDecoder" {
+			continue
+		}
+		fn := core.FuncName(api, fd)
+		var g *cfg.CFG
+		ast.Inspect(fd.Body, func(nd ast.Node) bool {
+			call, ok := nd.(*ast.CallExpr)
+			if !ok || ioCallKind(p, call) != "io.Read" || len(call.Args) != 1 {
+				return true
+			}
+			sl, ok := ast.Unparen(call.Args[0]).(*ast.SliceExpr)
+			if !ok || sl.Low == nil {
+				return true
+			}
+			n++
+			cn := fn + "/fresh-offset"
+			bufKey := exprStr(sl.X) // e.g. self.buf
+			low := ast.Unparen(sl.Low)
+			if lc, ok := low.(*ast.CallExpr); ok && exprStr(lc.Fun) == "len" && len(lc.Args) == 1 && exprStr(lc.Args[0]) == bufKey {
+				c.OK(cn, call.Pos(), "reads into %s[len(%s):cap]", bufKey, bufKey)
+				return true
+			}
+			lid, ok := low.(*ast.Ident)
+			if !ok {
+				c.Undecided(cn, call.Pos(), "unrecognised read offset %s", exprStr(low))
+				return true
+			}
+			lv := p.ObjectOf(lid)
+			if g == nil {
+				g = funcCFG(p, fd.Body)
+			}
+			b, i := locate(g, call.Pos())
+			if b == nil {
+				c.Undecided(cn, call.Pos(), "call not found in CFG")
+				return true
+			}
+			// backward walk: first event must be the definition l := len(buf)
+			isDef := func(nd ast.Node) bool {
+				as, ok := nd.(*ast.AssignStmt)
+				if !ok || len(as.Lhs) != 1 || len(as.Rhs) != 1 {
+					return false
+				}
+				id, ok := as.Lhs[0].(*ast.Ident)
+				if !ok || p.ObjectOf(id) != lv {
+					return false
+				}
+				lc, ok := ast.Unparen(as.Rhs[0]).(*ast.CallExpr)
+				return ok && exprStr(lc.Fun) == "len" && len(lc.Args) == 1 && exprStr(lc.Args[0]) == bufKey
+			}
+			isBufWrite := func(nd ast.Node) bool {
+				w := false
+				ast.Inspect(nd, func(m ast.Node) bool {
+					if as, ok := m.(*ast.AssignStmt); ok {
+						for _, l := range as.Lhs {
+							if exprStr(l) == bufKey {
+								w = true
+							}
+						}
+					}
+					return !w
+				})
+				return w
+			}
+			var stale token.Pos
+			entryReached := false
+			seen := map[*cfg.Block]bool{}
+			var back func(b *cfg.Block, from int)
+			preds := map[*cfg.Block][]*cfg.Block{}
+			for _, x := range g.Blocks {
+				for _, s := range x.Succs {
+					preds[s] = append(preds[s], x)
+				}
+			}
+			back = func(b *cfg.Block, from int) {
+				for j := from; j >= 0; j-- {
+					nd := b.Nodes[j]
+					if isDef(nd) {
+						return
+					}
+					if isBufWrite(nd) || nodeWrites(p, nd, lv) {
+						if !stale.IsValid() {
+							stale = nd.Pos()
+						}
+						return
+					}
+				}
+				if len(preds[b]) == 0 {
+					entryReached = true
+				}
+				for _, pr := range preds[b] {
+					if !seen[pr] {
+						seen[pr] = true
+						back(pr, len(pr.Nodes)-1)
+					}
+				}
+			}
+			back(b, i-1)
+			switch {
+			case stale.IsValid():
+				c.Bad(cn, call.Pos(), "the read offset %s can be stale: %s is modified at %s on a path that reaches the Read again without recomputing %s = len(%s); bytes already read are overwritten or truncated for some chunkings", lid.Name, bufKey, p.Pos(stale), lid.Name, bufKey)
+			case entryReached:
+				c.Bad(cn, call.Pos(), "the read offset %s is not defined as len(%s) on every path", lid.Name, bufKey)
+			default:
+				c.OK(cn, call.Pos(), "%s = len(%s) reaches the Read with no intervening write to %s", lid.Name, bufKey, bufKey)
+			}
+			return true
+		})
+	}
+	if n == 0 {
+		c.Undecided("internal/decoder/api.(StreamDecoder)/fresh-offset", token.NoPos, "no Reader.Read(buf[l:cap]) site found")
+	}
+}
